@@ -2,6 +2,8 @@
 import os
 import random
 
+import numpy as np
+
 from vmon import core, gen3d, mon3d
 
 SMALL = ["tests/1A1T_1_B.cif", "tests/1DFU_1_M-N.cif", "tests/1E7K_1_C.cif", "tests/1HMH_1_E.cif", "tests/4WTI_1_T-P.cif", "tests/6INQ.cif", "tests/184D.cif", "tests/1ATO.pdb", "tests/488d.pdb"]
@@ -112,6 +114,9 @@ def cases(prop, shard, nshards, seed, tier, want_models=False):
     for b in range(nplace // batch):
         if mine():
             yield {"family": "placement-batch", "b": b, "count": batch}
+    for b in range(16 if tier == "quick" else 200):
+        if mine():
+            yield {"family": "threshold-grazing-placements", "b": b, "count": 6}
     ntr = 8 if tier == "quick" else 80
     for b in range(ntr):
         if mine():
@@ -140,6 +145,118 @@ def placements(seed, prop, case):
         if kind in ("slide",) or (kind == "mix" and rng.random() < 0.5):
             m["slide"] = rng.uniform(-6, 6)
         yield {"file": fn, "i": i, "j": j, "motion": m}, gen3d.place_pair(s, i, j, m)
+
+
+def grazing(seed, prop, case):
+    """Two-residue placements in which ONE decision quantity of one donor-acceptor contact (its distance, or the angle to
+    one of the two base normals) sits a prescribed small amount - 2e-3, 2e-4 or 2e-5 (A / degrees) - on either side of
+    its threshold (4.0 A, 50 or 130 degrees): found by scanning one motion parameter for a crossing and bisecting on
+    the independent evaluator's value of that quantity.  Optionally the pair is carried ~9000 A from the origin, where
+    single-precision arithmetic is worth 1e-3 A."""
+    from vmon.oracles import g3d
+
+    files = [f for f in gen3d.corpus_files() if f in SMALL or f.endswith(("1ehz-assembly-1.cif", "4qln.cif"))]
+    rng = random.Random(f"{seed}:{prop}:graze:{case['b']}")
+    fn = rng.choice(files)
+    s = gen3d.load(fn)
+    pairs = gen3d.close_pairs(s)
+    if not pairs:
+        return
+    produced = 0
+    for attempt in range(case["count"] * 6):
+        if produced >= case["count"]:
+            break
+        i, j = rng.choice(pairs)
+        base = {"seed": f"{seed}:{case['b']}:{attempt}", "pull": rng.uniform(-0.5, 1.5), "twist": rng.uniform(-40, 40), "tilt": rng.uniform(-25, 25)}
+        param = rng.choice(["pull", "tilt", "twist", "slide"])
+        lo, hi = {"pull": (-1.0, 3.0), "tilt": (-70.0, 70.0), "twist": (-180.0, 180.0), "slide": (-5.0, 5.0)}[param]
+        what = rng.choice(["dist", "ang1", "ang2", "ang1", "ang2"])
+        if prop == "C11" and attempt % 2 == 0:
+            what = "dist"
+        lo, hi = (-2.0, 5.0) if (param == "pull" and prop == "C04") else (lo, hi)
+
+        backbone = prop == "C11" and attempt % 2 == 0
+        stacking = prop == "C04" or (prop == "C11" and attempt % 4 == 1)
+
+        class _BC:  # a base-donor ... backbone-oxygen contact seen as the same kind of record (distance only)
+            def __init__(self, d):
+                self.dist, self.ang1, self.ang2 = d, None, None
+
+        def contacts(t):
+            st = gen3d.place_pair(s, i, j, dict(base, **{param: t}))
+            res = g3d.snapshot(st)
+            if stacking:
+                # the stacking decision quantities of the pair: centroid distance (6 A), angle between the normals
+                # (35 degrees), offset angle (45 degrees) - carried in the slots dist / ang1 / ang2
+                out = {}
+                for e in g3d.stacking_candidates(res, reach=9.0):
+                    if e.get("normals") and "ang_normals" in e:
+                        c = _BC(e["dist"])
+                        c.ang1, c.ang2 = e["ang_normals"], e["off_undirected"]
+                        out[("stacking", e["i"], e["j"])] = c
+                return st, out
+            if backbone:
+                out = {}
+                for (di, ai_), lst in g3d.backbone_contacts(res, g3d.PHOSPHATE_ACCEPTORS + g3d.RIBOSE_ACCEPTORS, reach=6.0).items():
+                    for dn, an, d, cls, m in lst:
+                        out[(di, ai_, dn, an)] = _BC(d)
+                return st, out
+            return st, {(c.ai, c.aj): c for c in g3d.hbond_contacts(res, reach=6.0)}
+
+        _, c0 = contacts(base.get(param, 0.0))
+        if not c0:
+            continue
+        key = rng.choice(sorted(c0))
+        thr = 4.0 if what == "dist" else rng.choice([50.0, 130.0])
+        if stacking:
+            thr = {"dist": 6.0, "ang1": 35.0, "ang2": 45.0}[what]
+
+        def q(t):
+            st, cs = contacts(t)
+            c = cs.get(key)
+            if c is None:
+                return None, st
+            v = c.dist if what == "dist" else (c.ang1 if what == "ang1" else c.ang2)
+            return (None if v is None else v - thr), st
+
+        grid = [lo + (hi - lo) * k / 40 for k in range(41)]
+        vals = [q(t)[0] for t in grid]
+        br = [(grid[k], grid[k + 1]) for k in range(40) if vals[k] is not None and vals[k + 1] is not None and vals[k] * vals[k + 1] < 0]
+        if not br:
+            continue
+        a, b_ = rng.choice(br)
+        fa = q(a)[0]
+        for _ in range(60):
+            m = 0.5 * (a + b_)
+            fm = q(m)[0]
+            if fm is None:
+                break
+            if fa * fm <= 0:
+                b_ = m
+            else:
+                a, fa = m, fm
+        tstar = 0.5 * (a + b_)
+        h = 1e-4 * (hi - lo)
+        qa, qb = q(tstar - h)[0], q(tstar + h)[0]
+        if qa is None or qb is None or abs(qb - qa) < 1e-9:
+            continue
+        slope = (qb - qa) / (2 * h)
+        far = rng.random() < 0.4
+        for delta in (2e-3, -2e-3, 2e-4, -2e-4, 2e-5, -2e-5):
+            t = tstar + delta / slope
+            for _ in range(4):  # secant refinement onto the wanted offset
+                v = q(t)[0]
+                if v is None:
+                    break
+                t -= (v - delta) / slope
+            v, st = q(t)
+            if v is None or abs(v - delta) > abs(delta) * 0.2:
+                continue
+            if far:
+                off = np.array([9000.0, 8500.0 * (1 if attempt % 2 else -0.1), 9300.0])
+                st = gen3d.rebuild(st, coord_fn=lambda ri, p, off=off: p + off)
+            yield {"file": fn, "i": i, "j": j, "motion": dict(base, **{param: t}), "grazes": {"contact": key, "quantity": what, "threshold": thr, "offset": v}, "far-from-origin": far}, st
+        produced += 1
 
 
 def translated(seed, prop, case):
@@ -316,6 +433,14 @@ def run_case(prop, case, rec, call):
         for desc, s in placements(seed, prop, case):
             mon3d._cur["ctx"] = {"placement": desc}
             n += call(s, None)
+        rec.mark_nontrivial(n > 0)
+        return
+    if fam == "threshold-grazing-placements":
+        n = 0
+        for desc, s in grazing(seed, prop, case):
+            mon3d._cur["ctx"] = {"grazing-placement": desc}
+            n += call(s, None)
+            rec.count("note:grazing-placements")
         rec.mark_nontrivial(n > 0)
         return
     if fam == "translated-copies":
